@@ -1985,6 +1985,12 @@ func (l *LabeledVPNIPAddrPrefix) decodeFromBytes(data []byte, addrlen int, optio
 	}
 	bits := int(data[0])
 	data = data[1:]
+	// the length octet counts the bits of label stack, RD and prefix together
+	// (RFC 4364 Section 4.3.4 / RFC 8277): stay inside them.
+	if len(data) < (bits+7)/8 {
+		return NewMessageError(uint8(BGP_ERROR_UPDATE_MESSAGE_ERROR), uint8(BGP_ERROR_SUB_MALFORMED_ATTRIBUTE_LIST), nil, "LabeledVPNIPAddrPrefix not enough data")
+	}
+	data = data[:(bits+7)/8]
 	if err := l.Labels.DecodeFromBytes(data, options...); err != nil {
 		return err
 	}
@@ -2083,6 +2089,13 @@ func (l *LabeledIPAddrPrefix) decodeFromBytes(data []byte, addrlen int, options 
 	}
 	bits := int(data[0])
 	data = data[1:]
+	// the length octet counts the bits of label stack and prefix together
+	// (RFC 8277 Section 2.2): the label scan, which otherwise runs until it
+	// meets a bottom-of-stack bit, must not wander into the next NLRI.
+	if len(data) < (bits+7)/8 {
+		return NewMessageError(BGP_ERROR_UPDATE_MESSAGE_ERROR, BGP_ERROR_SUB_MALFORMED_ATTRIBUTE_LIST, nil, "LabeledIPAddrPrefix not enough data")
+	}
+	data = data[:(bits+7)/8]
 	if err := l.Labels.DecodeFromBytes(data, options...); err != nil {
 		return err
 	}
